@@ -15,6 +15,7 @@ Decided:
   C11.trunc  no length / count field is written through a truncating cast
   C11.tab    block type and picture type tables are inverse (C02/C03 check them against the RFC)
   C11.panic  engine B over the metadata writer entry points
+  C11.inv    every construction of BlockSize / BlockBits is bounded by the 24-bit limit (shared with C10)
 Not decided: value equality after a round trip.
 """
 from rules.common import *
